@@ -42,6 +42,28 @@ PATTERNS = ['t.', '^t[ab]$']
 SUB_TOPICS = distinct_pool(USER_TOPICS + PATTERNS + SYS_TOPICS, 10)
 
 
+def colliding_topics(n=3):
+    """literal topics that share one home slot of a module's subscription table (so that the table's probing and its
+    back-shift on removal are exercised), placed away from the slots of all other topics"""
+    used = set()
+    for t in SUB_TOPICS:
+        for d in range(-1, n + 2):
+            used.add((slot(t) + d) % 256)
+    by = {}
+    for i in range(4000):
+        t = 'q%d' % i
+        by.setdefault(slot(t), []).append(t)
+    for sl in sorted(by):
+        if len(by[sl]) >= n and all(((sl + d) % 256) not in used for d in range(-1, n + 2)):
+            return by[sl][:n]
+    return []
+
+
+COLLIDING = colliding_topics()
+SUB_TOPICS = SUB_TOPICS + COLLIDING
+USER_TOPICS = USER_TOPICS + COLLIDING[:1]
+
+
 def match_lines():
     out = []
     for p in SUB_TOPICS:
@@ -271,7 +293,7 @@ class Gen:
                 if reg and r.random() < 0.3: fl = fl.replace('-', '') + 'd'
                 self.w(('reg_path %s %d %s u%d' % (m['tok'], n, fl, r.randrange(1, 9))) if reg else ('dereg_path %s %d' % (m['tok'], n)))
             else:
-                a, b = r.choice([(1, 0), (0, 1), (1, 1), (2, 1), (1, 2), (0, 0), (3, 0)])
+                a, b = r.choice([(1, 0), (2, 0), (3, 0), (1, 0), (0, 0)])
                 self.w(('reg_thr %s %d %d %s u%d' % (m['tok'], a, b, fl, r.randrange(1, 9))) if reg else ('dereg_thr %s %d %d' % (m['tok'], a, b)))
         elif a == 'srclen':
             m = self.pick()
